@@ -1664,6 +1664,9 @@ fintStmt(DataObj retDataObj)
 	case FOAM_Loc:
 	case FOAM_Par:
 	case FOAM_Glo:
+	case FOAM_EElt: /* left by -Qno-deadvar after inlining */
+	case FOAM_RElt:
+	case FOAM_AElt:
 		ip = stmtPos;
 		(void)fintEval(&expr); /* consume the reference */
 		break;
